@@ -9,7 +9,7 @@ use crate::sm9api as a9;
 use gm_sm9::key::{Sm9EncMasterKey, Sm9SignMasterKey};
 use gm_sm9::points::TwistPoint;
 use num_bigint::BigUint;
-use num_traits::{One, Zero};
+use num_traits::{One, ToPrimitive, Zero};
 use refmodels::util::{from_be, from_limbs, hexbig as hb, to_limbs};
 use refmodels::{sm2, sm9};
 use serde::{Deserialize, Serialize};
@@ -446,6 +446,33 @@ fn monitor(ctx: &Ctx, cj: &dyn Fn() -> Value) {
                 break;
             }
         }
+        // leading byte: 65536 further draws; the count of every value v must be within 8 sigma of its share of [1, order-1]
+        // (a sampler that settles the leading byte first and redraws only the tail over-represents the bound's own leading byte)
+        {
+            let n_hist = 65536usize;
+            let mut hist = [0u32; 256];
+            for _ in 0..n_hist {
+                let v = if name.starts_with("sm2") {
+                    from_limbs(&gm_sm2::verif::random_u256())
+                } else {
+                    from_limbs(&gm_sm9::u256::sm9_random_u256(&to_limbs(&(&ord - 1u32))))
+                };
+                hist[(v >> 248usize).to_u32_digits().first().copied().unwrap_or(0) as usize] += 1;
+            }
+            ctx.calls(n_hist as u64);
+            let total = (&ord - 1u32).to_f64().unwrap_or(1.0);
+            for v in 0..256usize {
+                let lo = BigUint::from(v as u32) << 248usize;
+                let hi = (BigUint::from(v as u32 + 1) << 248usize).min(ord.clone());
+                let share = if hi > lo { (&hi - &lo).to_f64().unwrap_or(0.0) / total } else { 0.0 };
+                let expect = n_hist as f64 * share;
+                let sigma = (n_hist as f64 * share * (1.0 - share)).sqrt();
+                if (hist[v] as f64 - expect).abs() > 8.0 * sigma + 2.0 {
+                    ctx.violation(name, "monitor/leading-byte-over-or-under-represented", format!("leading byte {:02x}: {} of {} draws, expected {:.1}", v, hist[v], n_hist, expect), cj());
+                    break;
+                }
+            }
+        }
         // two fresh threads must not produce the same stream (fixed seeding)
         let f = |n: &str| -> Vec<BigUint> {
             if n.starts_with("sm2") {
@@ -674,7 +701,7 @@ pub fn run(ctx: &Arc<Ctx>) {
     // ---- monitor
     let before = ctx.violations().len();
     eval(ctx, &Case::Monitor);
-    ctx.cov("monitor", json!({"kind": "statistical monitor, not model checking", "draws_per_sampler": 4096, "checks": ["no duplicates", "in range", "bits 0..=250 within 8 sigma", "fresh threads give different streams", "8 concurrent threads draw pairwise different scalars", "the first scalars of 4096 fresh threads are pairwise different", "fresh processes give different streams"], "violations": ctx.violations().len() - before}));
+    ctx.cov("monitor", json!({"kind": "statistical monitor, not model checking", "draws_per_sampler": 4096, "checks": ["no duplicates", "in range", "leading-byte histogram of 65536 draws within 8 sigma", "bits 0..=250 within 8 sigma", "fresh threads give different streams", "8 concurrent threads draw pairwise different scalars", "the first scalars of 4096 fresh threads are pairwise different", "fresh processes give different streams"], "violations": ctx.violations().len() - before}));
     ctx.assume("'every bit position is unbiased' and 'seeded from the operating system' are statements about a distribution; bounded enumeration cannot decide them. They are only monitored (coverage.structural.monitor).");
     let _ = gdbg::<u8>;
 }
